@@ -8,6 +8,12 @@ import (
 
 func valueToPointer(val string) string {
 	valLen := len(val)
+
+	// An empty value (like "1 HUSB") is not a pointer.
+	if valLen == 0 {
+		return ""
+	}
+
 	firstCharIsAt := val[0] == '@'
 	lastCharIsAt := val[valLen-1] == '@'
 	if valLen > 2 && firstCharIsAt && lastCharIsAt {
